@@ -220,7 +220,9 @@ UNIT = Unit(
            uses="group_core_axioms, axiom_builtin_order, axiom_bytes_lt, axiom_denom_bytes_inj",
            rewrites=[("MUTPARAM", "state", "st")],
            ensures=[C("exist", """(forall|k: PoolKey| #[trigger] res.pools@.contains_key(k) <==> (state.pools@.contains_key(k) || k == pk_mel_sym() || k == pk_mel_erg() || (spec_tip(state.network, state.height, 180000) && k == pk_erg_sym())))""", "C16"),
-                    C("values", "forall|k: PoolKey| #[trigger] res.pools@.contains_key(k) ==> (if state.pools@.contains_key(k) { res.pools@[k] == state.pools@[k] } else { is_initial_pool(res.pools@[k]) })", "C16"),
+                    C("values", """forall|k: PoolKey| #[trigger] res.pools@.contains_key(k) ==> (if state.pools@.contains_key(k) && !(spec_tip(state.network, state.height, 180000) && k == pk_erg_sym() && state.pools@[k].liqs == 0)
+                        { res.pools@[k] == state.pools@[k] } else { is_initial_pool(res.pools@[k]) })""", "C16", "C09",
+                      note="absent built-in pools are seeded with 10^9/10^9/10^9; so is an ERG/SYM pool that exists but was emptied while it was still an ordinary pool (before TIP-902): fix 'an emptied ERG/SYM pool is seeded at TIP-902'"),
                     C("frame", "pool_phase_frame(state, res) && res.fee_pool == state.fee_pool && res.coins == state.coins", "C16", "C17")]),
         Fn(M, "process_deposits", home="C15", implicit_props=("C09", "C15", "C16", "C01"), **mm_process_deposits(),
            rewrites=[("MUTPARAM", "state", "st"), ("R3", 0)],
@@ -408,9 +410,11 @@ UNIT = Unit(
                     Inject(("after_let", "state", 0), """proof { assert(state.pools@.contains_key(pk_mel_sym())); assert(state.pools@.contains_key(pk_mel_erg()));
                         if spec_tip(s0.network, s0.height, 180000) { assert(state.pools@.contains_key(pk_erg_sym())); }
                         assert(builtins_live(state)); assert(pools_ok(state.pools@)) by { assert forall|k: PoolKey| #[trigger] state.pools@.contains_key(k) implies
-                            ((pool_live(state.pools@[k]) && state.pools@[k].liqs > 0) || (state.pools@[k].lefts == 0 && state.pools@[k].rights == 0 && state.pools@[k].liqs == 0)) by { if s0.pools@.contains_key(k) { assert(state.pools@[k] == s0.pools@[k]); } } }
+                            ((pool_live(state.pools@[k]) && state.pools@[k].liqs > 0) || (state.pools@[k].lefts == 0 && state.pools@[k].rights == 0 && state.pools@[k].liqs == 0)) by {
+                                if s0.pools@.contains_key(k) && !(spec_tip(s0.network, s0.height, 180000) && k == pk_erg_sym() && s0.pools@[k].liqs == 0) { assert(state.pools@[k] == s0.pools@[k]); } else { assert(is_initial_pool(state.pools@[k])); } } }
                         assert(state_inv(state)); lemma_two_pools_min(state);
-                        assert(liqs_mono(s0.pools@, state.pools@)) by { assert forall|k: PoolKey| #[trigger] s0.pools@.contains_key(k) implies state.pools@.contains_key(k) && state.pools@[k].liqs >= s0.pools@[k].liqs by { assert(state.pools@.contains_key(k)); } }
+                        assert(liqs_mono(s0.pools@, state.pools@)) by { assert forall|k: PoolKey| #[trigger] s0.pools@.contains_key(k) implies state.pools@.contains_key(k) && state.pools@[k].liqs >= s0.pools@[k].liqs by { assert(state.pools@.contains_key(k));
+                            if spec_tip(s0.network, s0.height, 180000) && k == pk_erg_sym() && s0.pools@[k].liqs == 0 { assert(is_initial_pool(state.pools@[k])); } else { assert(state.pools@[k] == s0.pools@[k]); } } }
                         lemma_builtin_liqs(state); lemma_wd_env_mono(s0.transactions@, s0.pools@, s0.coins@.coins, state.pools@, state.coins@.coins, spec_tip(s0.network, s0.height, 180000)); }
                         let ghost s1 = state;
                         proof { assert(s1.coins == s0.coins); }"""),
